@@ -76,6 +76,12 @@ def classify(fns):
             out.append(dict(f, shape="skip", rk=rk, kind="-", count=""))
             continue
         kind = KIND.get(pt[0], "-") if shape in ("unary", "binary") else "-"
+        if kind != "-":
+            # the record kind follows the function's name (interrogate_make_seq_has_comment declares an ElementIndex)
+            for pre, k in (("interrogate_type_", "t"), ("interrogate_function_", "f"), ("interrogate_wrapper_", "w"),
+                           ("interrogate_manifest_", "m"), ("interrogate_element_", "e"), ("interrogate_make_seq_", "s")):
+                if f["name"].startswith(pre):
+                    kind = k
         count = ""
         if shape == "binary":
             for pat, cf in COUNT_OF:
